@@ -450,8 +450,8 @@ def _wrap_elem(t, elem):
 # carrier: arithmetic on data goes through uninterpreted np_<op> functions whose
 # only laws are the ones stated in DESIGN Appendix B.
 
-_isnan_f = z3.Function("isnan", z3.RealSort(), z3.BoolSort())
-NAN = z3.Real("NaN")          # the NaN produced by dimarray's own fills
+_isnan_f = sym.ISNAN
+NAN = sym.NAN          # the NaN produced by dimarray's own fills
 
 
 def _eq_terms(a, b, elem=None):
@@ -616,7 +616,7 @@ def _cast(a, kind, copy):
         return a.copy() if copy else a
     f = a.snapshot()
     if kind == "f" and a.kind in "iu":
-        return ndarray.from_fn(lambda *i: z3.ToReal(f(*i)), a._shape, "f", "real")
+        return ndarray.from_fn(lambda *i: sym._toreal(f(*i)), a._shape, "f", "real")
     if kind == "O":
         return ndarray.from_fn(f, a._shape, "O", a.elem)
     if kind == "U" and a.kind in "SU":
@@ -951,6 +951,20 @@ def _int_index_array(ix, n, mode="raise"):
     return lambda j: z3.If(f(j) < 0, f(j) + nt, f(j))
 
 
+_AFFINE = {}      # id(view) -> (view kept alive, offset, stride) for 1-D slice views of whole buffers
+
+
+def _view_position(arr, w):
+    """position in `arr` of buffer index w, or None when arr is not a whole buffer / affine view"""
+    if arr.imap is None:
+        return w
+    hit = _AFFINE.get(id(arr))
+    if hit is None or hit[0] is not arr:
+        return None
+    _, off, stride = hit
+    return (w - off) / stride if stride > 0 else (off - w) / (-stride)
+
+
 def _memo(op, a, make):
     """NumPy functions are deterministic: the same operation on the same array *content* (same buffer,
     same content function, same view) yields the same symbols on a path.  Without this the equality of
@@ -1003,7 +1017,9 @@ def _mask_positions(mask):
     c.add(forall(0, m, lambda k: z3.And(e(k) >= 0, e(k) < nt, f(e(k)), rk(e(k)) == k), dom=n))
     c.add(forall2(0, m, lambda k, l: e(k) < e(l), dom=n))
     c.add(forall(0, nt, lambda i: z3.Implies(f(i), z3.And(rk(i) >= 0, rk(i) < m, e(rk(i)) == i))))
-    return ndarray.from_fn(lambda k: e(zint(k)), (m,), "i", "int")
+    r = ndarray.from_fn(lambda k: e(zint(k)), (m,), "i", "int")
+    r.buf.tags["rank"] = rk          # rk(i) = position of true entry i in the enumeration
+    return r
 
 
 def _index_1d(a, key):
@@ -1022,7 +1038,10 @@ def _index_1d(a, key):
         def imap(idx):
             src = (zint(lo) + step * zint(idx[0]),)
             return old(src) if old else src
-        return ndarray(a.buf, (cnt,), imap)
+        v = ndarray(a.buf, (cnt,), imap)
+        if old is None:
+            _AFFINE[id(v)] = (v, zint(lo), step)      # view[k] == buf[lo + step*k]
+        return v
     if isinstance(key, (list, tuple)):
         key = asarray(key)
         if key.kind == "f" and conc(key._shape[0]) == 0:
@@ -1035,7 +1054,13 @@ def _index_1d(a, key):
                 raise IndexError("boolean index did not match indexed array along axis 0")
             pos = mask_positions(key)
             fp, fa = pos.snapshot(), a.snapshot()
-            return ndarray.from_fn(lambda j: fa(fp(j)), pos._shape, a.kind, a.elem)
+            r = ndarray.from_fn(lambda j: fa(fp(j)), pos._shape, a.kind, a.elem)
+            rk = pos.buf.tags.get("rank")
+            if rk is not None and a.imap is None:
+                fm = key.snapshot()
+                # source element i (kept iff mask[i]) sits at position rk(i) of the result
+                r.buf.tags["located"] = [(a, (lambda i, rk=rk: rk(zint(i))), (lambda i, fm=fm: fm(zint(i))), key)]
+            return r
         if key.kind not in "iu":
             raise IndexError("arrays used as indices must be of integer (or boolean) type")
         g = _int_index_array(key, n)
@@ -1251,7 +1276,7 @@ def _setitem(a, key, value):
         raise OutOfSubset("assigning non-bool to bool array")
     def conv(t):
         if buf.elem == "real" and z3.is_expr(t) and z3.is_int(t):
-            return z3.ToReal(t)
+            return sym._toreal(t)
         if buf.elem == "real" and isinstance(t, (int, float)) and not isinstance(t, bool):
             if isinstance(t, float) and t != t:
                 return NAN
@@ -1488,7 +1513,7 @@ def concatenate(arrays, axis=0):
             src = idx[:axis] + (i - offs[k],) + idx[axis + 1:]
             t = fns[k](*src)
             if elem == "real" and z3.is_expr(t) and z3.is_int(t):
-                t = z3.ToReal(t)
+                t = sym._toreal(t)
             return t
         t = part(len(fns) - 1)
         for k in range(len(fns) - 2, -1, -1):
@@ -1496,7 +1521,16 @@ def concatenate(arrays, axis=0):
         return t
     ct = conc(total)
     shape = arrays[0]._shape[:axis] + (ct if ct is not None else total,) + arrays[0]._shape[axis + 1:]
-    return ndarray.from_fn(fn, shape, kind, elem)
+    r = ndarray.from_fn(fn, shape, kind, elem)
+    if nd == 1:
+        loc = []
+        for k, x in enumerate(arrays):
+            if x.imap is None:
+                loc.append((x, (lambda i, k=k: offs[k] + zint(i)), None, None))          # the part itself
+                for src, where, guard, mask in x.buf.tags.get("located", ()):               # and what it was made from
+                    loc.append((src, (lambda i, k=k, where=where: offs[k] + where(i)), guard, mask))
+        r.buf.tags["located"] = loc
+    return r
 
 
 def repeat(a, n, axis=None):
@@ -1649,6 +1683,10 @@ def searchsorted(a, v, side="left", sorter=None):
     c = ctx()
     c.lib("searchsorted")
     n = a._shape[0]
+    if a.elem == "py":
+        raise OutOfSubset("searchsorted on python objects")
+    # the facts below are quantified over positions of `a`: state them over a function symbol (see _named) so that
+    # their triggers are g(k), not buf(n-1-k) when `a` is a reversed / strided view
     fa = a.snapshot()
     if sorter is not None:
         sorter = asarray(sorter)
@@ -1656,13 +1694,22 @@ def searchsorted(a, v, side="left", sorter=None):
         g = lambda k: fa(fs(k))
     else:
         g = fa
-    if a.elem == "py":
-        raise OutOfSubset("searchsorted on python objects")
     c.prove("numpy.searchsorted:requires-sorted", _nondecreasing(g, n),
             "searchsorted is only specified on a non-decreasing array")
     strict = side == "left"
+    aff = _AFFINE.get(id(a))
+    reversed_whole = (sorter is None and aff is not None and aff[0] is a and aff[2] == -1 and conc(n) is None
+                      and z3.is_true(z3.simplify(aff[1] == zint(n) - 1)))
+    fbuf = a.buf.fn
+
     def facts(r, x):
         nt = zint(n)
+        if reversed_whole:
+            # a[k] == buf[n-1-k]: the same contract, re-indexed by w = n-1-k so that the quantified facts speak about
+            # buf(w) directly:  k < r  <=>  w > n-1-r ;  k >= r  <=>  w <= n-1-r
+            return [r >= 0, r <= nt,
+                    forall(nt - r, nt, lambda w: _lt(fbuf(w), x, strict)),
+                    forall(0, nt - r, lambda w: z3.Not(_lt(fbuf(w), x, strict)))]
         return [r >= 0, r <= nt,
                 forall(0, r, lambda k: _lt(g(k), x, strict), dom=n),
                 forall(r, nt, lambda k: z3.Not(_lt(g(k), x, strict)), dom=n)]
@@ -1723,7 +1770,9 @@ def _argsort(a):
     c.add(forall(0, nt, lambda i: z3.And(p(i) >= 0, p(i) < nt, q(p(i)) == i)))
     c.add(forall(0, nt, lambda i: z3.And(q(i) >= 0, q(i) < nt, p(q(i)) == i)))
     c.add(forall2(0, nt, lambda i, j: fa(p(i)) <= fa(p(j))))
-    return ndarray.from_fn(lambda i: p(zint(i)), (n,), "i", "int")
+    r = ndarray.from_fn(lambda i: p(zint(i)), (n,), "i", "int")
+    r.buf.tags["inverse"] = ndarray.from_fn(lambda i: q(zint(i)), (n,), "i", "int")
+    return r
 
 
 def sort(a, axis=-1, kind=None):
@@ -1776,18 +1825,113 @@ def _membership(a, b, name):
     inb = z3.Function(fresh_name("in1d"), z3.IntSort(), z3.BoolSort())
     w = z3.Function(fresh_name("in1d_wit"), z3.IntSort(), z3.IntSort())
     nat, nbt = zint(na), zint(nb)
-    c.add(forall(0, nat, lambda i: z3.Implies(inb(i), z3.And(w(i) >= 0, w(i) < nbt, fa(i) == fb(w(i))))))
+    ga, gb = _named(a), _named(b)          # function symbols: every trigger below is g(i) / g(j), free of index arithmetic
+    key = (id(a.buf.fn), id(a.imap), id(b.buf.fn), id(b.imap))
+    c.__dict__.setdefault("isin_witness", {})[key] = w
+    c.__dict__.setdefault("isin_named", {})[key] = (ga, gb)
+    c.add(forall(0, nat, lambda i: z3.Implies(inb(i), z3.And(w(i) >= 0, w(i) < nbt, ga(i) == gb(w(i))))))
     i_, j_ = z3.Int(fresh_name("i")), z3.Int(fresh_name("j"))
-    c.add(z3.ForAll([i_, j_], z3.Implies(z3.And(0 <= i_, i_ < nat, 0 <= j_, j_ < nbt, fa(i_) == fb(j_)), inb(i_))))
+    c.add(z3.ForAll([i_, j_], z3.Implies(z3.And(0 <= i_, i_ < nat, 0 <= j_, j_ < nbt, ga(i_) == gb(j_)), inb(i_))))
     return lambda i: inb(zint(i))
 
 
+def _named(arr):
+    """A z3 function symbol f with f(k) == arr[k] on [0, n), for stating quantified axioms with a usable trigger.
+    Arrays created directly from a function symbol (inputs, union1d / argsort / searchsorted results) carry it in
+    tags["func"]; for a derived array (concatenate, take, boolean compress, views, ...) whose content is a compound
+    term, a FRESH symbol is introduced together with its definitional axiom  forall k in [0,n): f(k) == content(k).
+    That is a conservative definition (it constrains only the new symbol), not an assumption.  Memoized per content."""
+    if arr.imap is None and "func" in arr.buf.tags and arr.buf.tags["func"][1] is arr.buf.fn:
+        return arr.buf.tags["func"][0]
+    c = ctx()
+    memo = c.__dict__.setdefault("memo", {})
+    key = ("named", id(arr.buf.fn), id(arr.imap))
+    hit = memo.get(key)
+    if hit is not None:
+        return hit[0]
+    srt = {"real": z3.RealSort(), "int": z3.IntSort(), "bool": z3.BoolSort(), "str": z3.IntSort()}[arr.elem]
+    f = z3.Function(fresh_name("arr"), z3.IntSort(), srt)
+    content = arr.snapshot()
+    c.add(forall(0, arr._shape[0], lambda k: f(k) == content(k)))
+    memo[key] = (f, arr, arr.buf.fn, arr.imap)
+    c.lib("definitional naming of derived arrays")
+    return f
+
+
+def _same_content(x, y):
+    return x.imap is None and y.imap is None and x.buf.fn is y.buf.fn
+
+
+def _derive_members(a, b, mem):
+    """b was built by library combinators that published where their source elements land.  Try to DERIVE
+    "a[i] is a member of b" from the existing axioms.  Every lemma goes through ctx().prove_hint: it is used
+    only after z3 has proved it from what is already known, and silently dropped otherwise."""
+    b = asarray(b)
+    located = b.buf.tags.get("located", ())
+    if not located:
+        return
+    c = ctx()
+    n = a._shape[0]
+    fa, fb = a.snapshot(), b.snapshot()
+    nbt = zint(b._shape[0])
+
+    ga, gb = _named(a), _named(b)
+
+    def lemma(i, cond, w):
+        j = _view_position(b, w)
+        if j is None:
+            return None
+        return z3.ForAll([i], z3.Implies(z3.And(0 <= i, i < zint(n), cond), z3.And(j >= 0, j < nbt, gb(j) == ga(i), mem(i))))
+
+    for src, where, guard, mask in located:
+        if not _same_content(src, a):
+            continue
+        i = z3.Int(fresh_name("i"))
+        lm = lemma(i, guard(i) if guard is not None else z3.BoolVal(True), where(i))
+        if lm is not None:
+            c.prove_hint(lm)
+        # the complement: the guard is `not isin(a, t)`, so an element that was dropped equals t[w(i)], and t itself
+        # may be located in b (typically t is the first part of a concatenation)
+        if mask is not None:
+            info = mask.buf.tags.get("isin_of")
+            if info is not None and info[2] and _same_content(info[0], a):
+                t = info[1]
+                wit = c.__dict__.get("isin_witness", {}).get((id(a.buf.fn), id(a.imap), id(t.buf.fn), id(t.imap)))
+                for src2, where2, guard2, _m in located:
+                    if wit is not None and guard2 is None and _same_content(src2, t):
+                        i2 = z3.Int(fresh_name("i"))
+                        lm2 = lemma(i2, z3.Not(guard(i2)), where2(wit(i2)))
+                        if lm2 is not None:
+                            c.prove_hint(lm2)
+                        break
+
+
+def _isin_pred(a, b):
+    """the membership predicate of a in b -- one per (content of a, content of b) on a path"""
+    c = ctx()
+    memo = c.__dict__.setdefault("memo", {})
+    key = ("isin", id(a.buf.fn), id(a.imap), id(b.buf.fn), id(b.imap))
+    hit = memo.get(key)
+    if hit is None:
+        mem = _membership(a, b, "isin")
+        hit = (mem, a, b, a.buf.fn, b.buf.fn, a.imap, b.imap)
+        memo[key] = hit
+        if conc(b._shape[0]) is None:
+            _derive_members(a, b, mem)
+    return hit[0]
+
+
 def isin(a, b, assume_unique=False, invert=False):
-    a = asarray(a)
-    mem = _membership(a, b, "isin")
+    a, b = asarray(a), asarray(b)
+    if a.ndim != 1 or b.ndim != 1:
+        raise OutOfSubset("isin on non 1-D arrays")
+    mem = _isin_pred(a, b)
     if invert:
-        return ndarray.from_fn(lambda i: z3.Not(mem(i)), a._shape, "b", "bool")
-    return ndarray.from_fn(lambda i: mem(i), a._shape, "b", "bool")
+        r = ndarray.from_fn(lambda i: z3.Not(mem(i)), a._shape, "b", "bool")
+    else:
+        r = ndarray.from_fn(lambda i: mem(i), a._shape, "b", "bool")
+    r.buf.tags["isin_of"] = (a, b, invert)
+    return r
 
 # NOTE: np.in1d was removed in NumPy 2.4+; the shim mirrors the *installed* NumPy
 # (checked by libcheck): it is only defined when /venv's NumPy has it.
@@ -1826,7 +1970,10 @@ def union1d(a, b):
     c.add(forall(0, nb, lambda i: z3.And(wb(i) >= 0, wb(i) < m, u(wb(i)) == conv(fb(i)))))
     c.add(forall(0, m, lambda k: z3.Or(z3.And(src(k) >= 0, src(k) < na, u(k) == conv(fa(src(k)))),
                                        z3.And(src(k) < 0, -1 - src(k) < nb, u(k) == conv(fb(-1 - src(k))))), dom=dom_u))
-    return ndarray.from_fn(lambda k: u(zint(k)), (m,), kind, elem)
+    r = ndarray.from_fn(lambda k: u(zint(k)), (m,), kind, elem)
+    r.buf.tags["func"] = (u, r.buf.fn)
+    r.buf.tags["located"] = [(a, (lambda i: wa(zint(i))), None, None), (b, (lambda i: wb(zint(i))), None, None)]
+    return r
 
 
 def unique(a, **kw):
